@@ -1743,7 +1743,9 @@ def df_unslice(df, ub):
     >>> assert eq(df_slice(list(res.values()), ub = ub, n = 10), df)
 
     """
-    n = df.shape[1] if is_df(df) else 1
+    if is_series(df):
+        df = pd.DataFrame({0: df})
+    n = df.shape[1]
     res = dictable(ub = ub, lb = [None] + ub[:-1], i = range(len(ub)))
     res = res(ts = lambda lb, ub: df_slice(df, lb, ub, '(]'))
     res = res(rs = lambda i, ts: dictable(u = ub[i: i+n], j = range(len(ub[i: i+n])))(ts = lambda j: ts[j]))
